@@ -8,6 +8,8 @@
 #include <unistd.h>
 
 #include <algorithm>
+#include <cerrno>
+#include <ctime>
 
 #if defined(SIM_ASAN)
 extern "C" {
@@ -40,7 +42,7 @@ namespace sim {
 static const char* kYieldNames[Y_NKINDS] = {
     "START", "LOCK", "UNLOCK", "FACTORY_IN", "FACTORY_MID", "FACTORY_OUT", "READ", "SKIP",
     "SRC_DTOR", "FOPEN", "CK_READ", "CK_SEEK", "CK_CLOSE", "ATOMIC_LD", "ATOMIC_ST",
-    "ATOMIC_RMW", "OP", "BLOCKED", "END"};
+    "ATOMIC_RMW", "OP", "BLOCKED", "END", "COND_WAIT", "COND_SIGNAL"};
 const char* yield_name(int k) { return (k >= 0 && k < Y_NKINDS) ? kYieldNames[k] : "?"; }
 
 namespace {
@@ -54,6 +56,9 @@ struct Task {
   size_t stack_size = 0;
   TaskState st = T_RUNNABLE;
   const void* blocked_on = nullptr;
+  bool on_cond = false;        // blocked_on is a condition variable (not a mutex)
+  bool timed = false;          // ... in a timed wait: may be woken by a "timeout" when nothing else can run
+  bool timed_out = false;
   uint8_t pending = Y_START;
   const std::function<void()>* body = nullptr;
   void* tsan_fiber = nullptr;
@@ -157,6 +162,13 @@ void set_owner(const void* m, int id) {
   for (auto& p : g->owners) if (p.first == m) { p.second = id; return; }
   g->owners.emplace_back(m, id);
 }
+// Recursion depth of a (recursive) mutex held by its owner, and reader counts of rwlocks.
+std::vector<std::pair<const void*, int>>& depths() { static std::vector<std::pair<const void*, int>> d; return d; }
+int& depth_of(const void* m) {
+  for (auto& p : depths()) if (p.first == m) return p.second;
+  depths().emplace_back(m, 0);
+  return depths().back().second;
+}
 
 }  // namespace
 
@@ -197,6 +209,7 @@ SchedResult run_tasks(const std::vector<std::function<void()>>& bodies, const Sc
   s.main_tsan_fiber = __tsan_get_current_fiber();
 #endif
   g = &s;
+  depths().clear();
   Rng rng(cfg.seed);
   for (size_t i = 0; i < bodies.size(); ++i) {
     Task* t = new Task;
@@ -236,8 +249,13 @@ SchedResult run_tasks(const std::vector<std::function<void()>>& bodies, const Sc
     R.clear();
     for (Task* t : s.tasks) if (t->st == T_RUNNABLE) R.push_back(t);
     if (R.empty()) {
+      // Discrete-event time: when nothing can run, the earliest timed wait expires.
+      Task* tw = nullptr;
+      for (Task* t : s.tasks) if (t->st == T_BLOCKED && t->on_cond && t->timed) { tw = t; break; }
+      if (tw) { tw->st = T_RUNNABLE; tw->timed_out = true; tw->blocked_on = nullptr; res.cond_timeouts++; continue; }
       res.deadlock = true;
       for (Task* t : s.tasks) if (t->st == T_BLOCKED) {
+        if (t->on_cond) { res.deadlock_info += "t" + std::to_string(t->id) + " waits on a condition variable nobody will signal; "; continue; }
         int o = owner_of(t->blocked_on);
         res.deadlock_info += "t" + std::to_string(t->id) + " waits for mutex held by t" + std::to_string(o) + "; ";
       }
@@ -312,7 +330,8 @@ namespace detail {
 void mutex_lock_enter(const void* m) {
   Task* t = g->tasks[g->cur];
   yield(Y_LOCK);
-  while (owner_of(m) >= 0) {
+  if (owner_of(m) == t->id) { depth_of(m)++; return; }   // recursive mutex re-entered by its owner
+  while (owner_of(m) >= 0 || (owner_of(m) == -2)) {
     g->res->contended_locks++;
     t->st = T_BLOCKED;
     t->blocked_on = m;
@@ -320,10 +339,51 @@ void mutex_lock_enter(const void* m) {
     to_main(t, false);
   }
   set_owner(m, t->id);
+  depth_of(m) = 1;
 }
 void mutex_unlock_leave(const void* m) {
+  if (owner_of(m) == g->cur && depth_of(m) > 1) { depth_of(m)--; return; }
+  depth_of(m) = 0;
   set_owner(m, -1);
-  for (Task* t : g->tasks) if (t->st == T_BLOCKED && t->blocked_on == m) { t->st = T_RUNNABLE; t->blocked_on = nullptr; }
+  for (Task* t : g->tasks) if (t->st == T_BLOCKED && !t->on_cond && t->blocked_on == m) { t->st = T_RUNNABLE; t->blocked_on = nullptr; }
+  yield(Y_UNLOCK);
+}
+// Condition variables.  The caller has already released the mutex (real + simulated).
+bool cond_block(const void* cond, bool timed) {
+  Task* t = g->tasks[g->cur];
+  g->res->cond_waits++;
+  t->st = T_BLOCKED; t->on_cond = true; t->timed = timed; t->timed_out = false; t->blocked_on = cond; t->pending = Y_COND_WAIT;
+  to_main(t, false);
+  t->on_cond = false; t->timed = false;
+  return t->timed_out;
+}
+void cond_wake(const void* cond, bool all) {
+  for (Task* t : g->tasks) if (t->st == T_BLOCKED && t->on_cond && t->blocked_on == cond) {
+    t->st = T_RUNNABLE; t->blocked_on = nullptr;
+    if (!all) break;
+  }
+  yield(Y_COND_SIGNAL);
+}
+void mutex_release_for_wait(const void* m) {
+  set_owner(m, -1);
+  for (Task* t : g->tasks) if (t->st == T_BLOCKED && !t->on_cond && t->blocked_on == m) { t->st = T_RUNNABLE; t->blocked_on = nullptr; }
+}
+void rw_rdlock_enter(const void* m) {
+  Task* t = g->tasks[g->cur];
+  yield(Y_LOCK);
+  while (owner_of(m) >= 0) {   // a writer holds it
+    g->res->contended_locks++;
+    t->st = T_BLOCKED; t->blocked_on = m; t->pending = Y_BLOCKED;
+    to_main(t, false);
+  }
+  set_owner(m, -2);
+  depth_of(m)++;
+}
+void rw_unlock_leave(const void* m) {
+  if (owner_of(m) == -2) { if (--depth_of(m) > 0) return; }
+  depth_of(m) = 0;
+  set_owner(m, -1);
+  for (Task* t : g->tasks) if (t->st == T_BLOCKED && !t->on_cond && t->blocked_on == m) { t->st = T_RUNNABLE; t->blocked_on = nullptr; }
   yield(Y_UNLOCK);
 }
 void guard_enter() { if (in_task()) g->tasks[g->cur]->guard_depth++; }
@@ -373,6 +433,67 @@ void __wrap___cxa_guard_release(void* gd) {
 void __wrap___cxa_guard_abort(void* gd) {
   __real___cxa_guard_abort(gd);
   sim::detail::guard_leave();
+}
+int __real_pthread_cond_wait(pthread_cond_t* c, pthread_mutex_t* m);
+int __real_pthread_cond_timedwait(pthread_cond_t* c, pthread_mutex_t* m, const struct timespec* ts);
+int __real_pthread_cond_clockwait(pthread_cond_t* c, pthread_mutex_t* m, clockid_t clk, const struct timespec* ts);
+int __real_pthread_cond_signal(pthread_cond_t* c);
+int __real_pthread_cond_broadcast(pthread_cond_t* c);
+
+static int sim_cond_wait(pthread_cond_t* c, pthread_mutex_t* m, bool timed) {
+  bool timed_out;
+  {
+    sim::HarnessScope hs;
+    __real_pthread_mutex_unlock(m);
+    sim::detail::mutex_release_for_wait(m);
+    timed_out = sim::detail::cond_block(c, timed);   // parks; returns when signalled (or, timed, when nothing else could run)
+    sim::detail::mutex_lock_enter(m);
+  }
+  __real_pthread_mutex_lock(m);
+  return timed_out ? ETIMEDOUT : 0;
+}
+int __wrap_pthread_cond_wait(pthread_cond_t* c, pthread_mutex_t* m) {
+  if (!sim::in_task()) return __real_pthread_cond_wait(c, m);
+  return sim_cond_wait(c, m, false);
+}
+int __wrap_pthread_cond_timedwait(pthread_cond_t* c, pthread_mutex_t* m, const struct timespec* ts) {
+  if (!sim::in_task()) return __real_pthread_cond_timedwait(c, m, ts);
+  return sim_cond_wait(c, m, true);
+}
+int __wrap_pthread_cond_clockwait(pthread_cond_t* c, pthread_mutex_t* m, clockid_t clk, const struct timespec* ts) {
+  if (!sim::in_task()) return __real_pthread_cond_clockwait(c, m, clk, ts);
+  return sim_cond_wait(c, m, true);
+}
+int __wrap_pthread_cond_signal(pthread_cond_t* c) {
+  if (!sim::in_task()) return __real_pthread_cond_signal(c);
+  sim::HarnessScope hs;
+  sim::detail::cond_wake(c, false);
+  return 0;
+}
+int __wrap_pthread_cond_broadcast(pthread_cond_t* c) {
+  if (!sim::in_task()) return __real_pthread_cond_broadcast(c);
+  sim::HarnessScope hs;
+  sim::detail::cond_wake(c, true);
+  return 0;
+}
+int __real_pthread_rwlock_rdlock(pthread_rwlock_t* l);
+int __real_pthread_rwlock_wrlock(pthread_rwlock_t* l);
+int __real_pthread_rwlock_unlock(pthread_rwlock_t* l);
+int __wrap_pthread_rwlock_rdlock(pthread_rwlock_t* l) {
+  if (!sim::in_task()) return __real_pthread_rwlock_rdlock(l);
+  { sim::HarnessScope hs; sim::detail::rw_rdlock_enter(l); }
+  return __real_pthread_rwlock_rdlock(l);
+}
+int __wrap_pthread_rwlock_wrlock(pthread_rwlock_t* l) {
+  if (!sim::in_task()) return __real_pthread_rwlock_wrlock(l);
+  { sim::HarnessScope hs; sim::detail::mutex_lock_enter(l); }
+  return __real_pthread_rwlock_wrlock(l);
+}
+int __wrap_pthread_rwlock_unlock(pthread_rwlock_t* l) {
+  if (!sim::in_task()) return __real_pthread_rwlock_unlock(l);
+  int r = __real_pthread_rwlock_unlock(l);
+  { sim::HarnessScope hs; if (sim::owner_of(l) == -2) sim::detail::rw_unlock_leave(l); else sim::detail::mutex_unlock_leave(l); }
+  return r;
 }
 int __wrap_pthread_once(pthread_once_t* once, void (*fn)(void)) {
   sim::detail::guard_enter();
@@ -427,3 +548,14 @@ SIM_ATOMIC_WRAPS(64, unsigned long)
 #endif
 
 }  // extern "C"
+
+// std::condition_variable's wait/notify live inside libstdc++.so, where --wrap cannot reach their pthread
+// calls.  Interposing the three members from the executable routes them through the wrapped functions above
+// (timed waits are header-inline and reach pthread_cond_clockwait directly).
+#include <condition_variable>
+#include <mutex>
+namespace std {
+void condition_variable::wait(unique_lock<mutex>& lk) { pthread_cond_wait(native_handle(), lk.mutex()->native_handle()); }
+void condition_variable::notify_one() noexcept { pthread_cond_signal(native_handle()); }
+void condition_variable::notify_all() noexcept { pthread_cond_broadcast(native_handle()); }
+}  // namespace std
